@@ -77,6 +77,7 @@ func checkC03(c *Ctx) {
 	c.c03Replies(m, t)
 	c.c03Greeting(m, t)
 	c.c03Index(m)
+	r.Floor("C03/SESSION/own-connection", "go statements in loops of the SMTP server package", c.ownConnection("C03/SESSION/own-connection", "pkg/server/smtp"), 1)
 	// one command line is one read: a reader primitive that hands out a long line in pieces
 	// must be re-assembled, or the tail of the line is executed as further commands
 	r.Rule("C03/LINE/whole", "the command-line read returns whole lines: textproto.Reader.ReadLine / bufio ReadString / ReadBytes, or bufio.Reader.ReadLine with its isPrefix result consulted (ReadSlice, which fails on long lines, is not accepted)")
